@@ -135,10 +135,10 @@ def exp_backward(grad:np.ndarray, exp_a:np.ndarray):
 
 
 def log_forward(a:np.ndarray):
-    return np.log(a + epsilon)
+    return np.log(a)
 
 def log_backward(grad:np.ndarray, a:np.ndarray):
-    return grad / (a + epsilon)
+    return grad / a
 
 
 def sqrt_forward(a:np.ndarray):
